@@ -67,6 +67,8 @@ def run_property(prop, tier, seed):
         core.assign_ids(cases)
         t1 = time.time()
         core.attach_glob(cvh, cases, prop)
+        if hasattr(P, "attach"):
+            P.attach(cvh, cases, prop)
         impl = core.run_harness(cvh, cases, prop)
         t2 = time.time()
         model = core.run_model(cases, prop)
